@@ -393,15 +393,15 @@ def make_repeats(timeout):
     gens = [tuple[()], tuple[int], tuple[int, ...], list[int], dict[str, int], t.Optional[int], int | None, frozenset[str],
             t.Tuple[()], t.List[int], tuple[tuple[()], int], list[tuple[()]]]
 
-    def body(c0: int, c1: int):
+    def body(c0: int, c1: int, c2: int):
         from typelib import graph
 
         from vlib import caches
 
-        ch = Chooser((c0, c1))
+        ch = Chooser((c0, c1, c2))
         with NoTracing():
             G = ch.choose(gens)
-            form = ch.pick(4)
+            form = ch.pick(5)
             caches.clear_all()
             if form == 0:
                 T, members = dict[G, G], {}
@@ -410,10 +410,19 @@ def make_repeats(timeout):
             elif form == 2:
                 cls = dataclasses.make_dataclass("Two", [("a", G), ("b", G)])
                 T, members = cls, {cls: [("a", G), ("b", G)]}
-            else:
+            elif form == 3:
                 inner = dataclasses.make_dataclass("Inner", [("a", G)])
                 cls = dataclasses.make_dataclass("Outer", [("a", G), ("i", inner)])
                 T, members = cls, {cls: [("a", G), ("i", inner)], inner: [("a", G)]}
+            else:  # fields on both sides of a dataclasses.KW_ONLY sentinel (own or inherited)
+                tag = dataclasses.make_dataclass("Tag", [("n", int)])
+                base = dataclasses.make_dataclass("KBase", [("a", G), ("_", dataclasses.KW_ONLY), ("t", list[tag])])
+                cls = dataclasses.make_dataclass("KChild", [("extra", tag, dataclasses.field(kw_only=True, default=None))], bases=(base,)) if ch.flag() else base
+                mem = [("a", G), ("t", list[tag])] + ([("extra", tag)] if cls is not base else [])
+                T, members = cls, {cls: mem, tag: [("n", int)]}
+            for c_ in members:  # classes made on the fly must be importable by name for a reference to them to resolve
+                if isinstance(c_, type):
+                    setattr(sys.modules[__name__], c_.__name__, c_)
             reached()
             try:
                 hash(G)
@@ -428,7 +437,7 @@ def make_repeats(timeout):
                 return (r[0], "repeats", _d(T, r[2]))
         return None
 
-    return Cond("repeats/subscripted_twice", [("c0", int), ("c1", int)], body, mode="E3", timeout=timeout)
+    return Cond("repeats/subscripted_twice", [("c0", int), ("c1", int), ("c2", int)], body, mode="E3", timeout=timeout)
 
 
 def make_late(timeout):
